@@ -652,6 +652,52 @@ func runC11(c *core.Ctx) core.Meta {
 		}
 	}
 
+	// ---------------- R11.12 a command is not retired on the spot once requests were attached to it ----------------
+	st12 := c.Rule("R11.12", "in the functions that start a command (process…Command of the driver and its copy middlewares, helpers expanded), CommandQueue.Dequeue is not reachable after a request was attached to the command (an append to its Reqs list, directly, through AddReq or through the flush helper): a command that is retired at once while a flush or copy request of its own is outstanding completes before its transactions did, and the late response finds no command (`cannot find command`)", 4)
+	{
+		deq := c.SSAFunc(driverPkg, "CommandQueue.Dequeue")
+		isAttach := func(n *core.Node) bool {
+			if s, ok := n.Instr.(*ssa.Store); ok {
+				if f := core.FieldOfAddr(s.Addr); f != nil && f.Name() == "Reqs" {
+					if call, ok := s.Val.(*ssa.Call); ok && core.IsBuiltin(call, "append") {
+						return true
+					}
+				}
+			}
+			if cc := core.CallOf(n.Instr); cc != nil && cc.IsInvoke() && cc.Method.Name() == "AddReq" {
+				return true
+			}
+			return false
+		}
+		for _, fn := range pd.Funcs {
+			name := fn.Name()
+			if !strings.HasPrefix(name, "process") || !strings.HasSuffix(name, "Command") {
+				continue
+			}
+			g := core.BuildGraph(fn, 3, func(cal *ssa.Function) bool { return cal.Pkg == fn.Pkg && cal != deq })
+			attaches := g.NodesWhere(isAttach)
+			st12.Instances++
+			c.MarkAnalysed(fn)
+			var bad *core.Node
+			for _, a := range attaches {
+				// requests are attached inside loops (one flush per GPU, one piece per page): leaving the loop takes its back edge
+				reach, _ := g.Reach(core.After(a, nil), core.WalkOpts{})
+				for m := range reach {
+					if cc := core.CallOf(m.Instr); cc != nil && cc.StaticCallee() == deq && (bad == nil || m.ID < bad.ID) {
+						bad = m
+					}
+				}
+			}
+			st12.Ob(bad == nil)
+			if len(attaches) > 0 {
+				st12.Sample("%s attaches requests at %d sites; no Dequeue afterwards: %v", core.FuncName(fn), len(attaches), bad == nil)
+			}
+			if bad != nil {
+				c.ReportAt("R11.12", fn, bad.Instr.Pos(), "dequeue-after-attach:"+core.FuncName(fn), core.FuncName(fn)+" can dequeue the command ("+core.FuncName(bad.Fn())+") after a request was attached to it: the command completes while that request is outstanding, and its response later finds no command")
+			}
+		}
+	}
+
 	// ---------------- R11.7 a copy with nothing to move still completes ----------------
 	st7 := c.Rule("R11.7", "a copy command is put into the running state only on a path on which its size was found non-zero: the splitting loop creates no request for an empty copy, so nothing would ever complete it and the queue (and every later DrainCommandQueue) would block forever", 2)
 	for _, fname := range []string{"defaultMemoryCopyMiddleware.processMemCopyH2DCommand", "defaultMemoryCopyMiddleware.processMemCopyD2HCommand"} {
